@@ -74,20 +74,35 @@ Proof.
   eapply Forall_impl; [|eapply core_targets_are_links; exact E]. intros g Hg. eapply links_for_bound. exact Hg.
 Qed.
 
+Lemma assemble_nth ids dl wsf w k fl :
+  an_core (assemble ids dl wsf) = Ok w -> nth_error (ws_files w) k = Some fl ->
+  exists f p, nth_error wsf k = Some (f, p) /\ core_of_pfile ids dl (N.of_nat k, (f, p)) = Ok fl.
+Proof.
+  intros E Hk. unfold assemble in E. cbn [an_core] in E.
+  destruct (firstErr (map (core_of_pfile ids dl) (number_from 0 wsf))) as [fl0|e|] eqn:F; try discriminate.
+  inversion E; subst w. cbn [ws_files] in Hk. apply firstErr_ok in F.
+  apply (f_equal (fun l => nth_error l k)) in F. cbv beta in F. rewrite !nth_error_map in F. rewrite number_from_nth in F.
+  rewrite Hk in F. destruct (nth_error wsf k) as [[f p]|] eqn:Hw; cbn [option_map] in F; [|discriminate].
+  inversion F as [F']. try rewrite N.add_0_l in F'. exists f, p. auto.
+Qed.
+
+Lemma assemble_length ids dl wsf w :
+  an_core (assemble ids dl wsf) = Ok w -> List.length (ws_files w) = List.length wsf.
+Proof.
+  intros E. unfold assemble in E. cbn [an_core] in E.
+  destruct (firstErr (map (core_of_pfile ids dl) (number_from 0 wsf))) as [fl|e|] eqn:F; try discriminate.
+  inversion E; subst w. cbn [ws_files]. apply firstErr_ok in F.
+  apply (f_equal (@List.length _)) in F. rewrite !map_length, number_from_length in F. symmetry. exact F.
+Qed.
+
 Theorem assemble_wf ids dl wsf w :
   List.length wsf = List.length ids -> Forall (fun fp => pf_ok (snd fp)) wsf ->
   an_core (assemble ids dl wsf) = Ok w -> ws_wf (map (fun fp => pf_text (snd fp)) wsf) w.
 Proof.
-  intros L OKs E. unfold assemble in E. cbn [an_core] in E.
-  destruct (firstErr (map (core_of_pfile ids dl) (number_from 0 wsf))) as [fl|e|] eqn:F; try discriminate.
-  inversion E; subst w. unfold ws_wf. cbn [ws_files]. apply firstErr_ok in F.
-  assert (LEN : List.length fl = List.length wsf).
-  { apply (f_equal (@List.length _)) in F. rewrite !map_length, number_from_length in F. symmetry. exact F. }
-  split; [rewrite map_length; exact LEN|].
-  intros k flk txt Hk Ht. rewrite map_length. rewrite nth_error_map in Ht.
-  destruct (nth_error wsf k) as [[f p]|] eqn:Hw; cbn [option_map] in Ht; [|discriminate]. inversion Ht; subst txt. cbn [snd].
-  apply (f_equal (fun l => nth_error l k)) in F. cbv beta in F. rewrite !nth_error_map in F. rewrite number_from_nth in F. rewrite Hw in F. rewrite Hk in F. cbn [option_map] in F.
-  inversion F as [F']. try rewrite N.add_0_l in F'. rewrite L. eapply core_of_pfile_wf; [|exact F'].
+  intros L OKs E. unfold ws_wf. rewrite map_length. split; [eapply assemble_length; exact E|].
+  intros k flk txt Hk Ht. destruct (assemble_nth _ _ _ _ _ _ E Hk) as (f & p & Hw & C).
+  rewrite nth_error_map, Hw in Ht. cbn [option_map snd] in Ht. inversion Ht; subst txt.
+  rewrite L. eapply core_of_pfile_wf; [|exact C].
   rewrite Forall_forall in OKs. apply (OKs (f, p)). eapply nth_error_In. exact Hw.
 Qed.
 
@@ -101,13 +116,12 @@ Qed.
 Lemma parse_file_ok fuel path txt : pf_ok (parse_file fuel path txt).
 Proof. exists fuel. reflexivity. Qed.
 
-(** THE PIPELINE: whatever the files and the root, when the analysis yields a Core workspace, that workspace is well
-    formed with respect to the texts of its files *)
-Theorem analyze_wf : forall pfuel cfuel files root a w,
-  analyze pfuel cfuel files root = Some a -> an_core a = Ok w ->
-  ws_wf (map (fun fp => pf_text (snd fp)) (an_files a)) w.
+(** what [analyze] returns is an [assemble] of parsed files, one per workspace FileId *)
+Lemma analyze_assemble : forall pfuel cfuel files root a,
+  analyze pfuel cfuel files root = Some a ->
+  exists ids dl wsf, a = assemble ids dl wsf /\ List.length wsf = List.length ids /\ Forall (fun fp => pf_ok (snd fp)) wsf.
 Proof.
-  intros pfuel cfuel files root a w A E. unfold analyze in A.
+  intros pfuel cfuel files root a A. unfold analyze in A.
   set (parsed := map (fun pt => parse_file pfuel (components (fst pt)) (snd pt)) files) in *.
   destruct (Includes.assign Includes.fs_init (components root)) as [rid fs1].
   destruct (Includes.set_root_file _ _ _ _ _) as [[fs2 db2]| |]; try discriminate.
@@ -115,8 +129,8 @@ Proof.
   set (ids := sort_ids (map fst fset)) in *.
   destruct (all_some _) as [wsf|] eqn:AS; try discriminate. inversion A; subst a. clear A.
   apply all_some_spec in AS.
-  assert (AF : an_files (assemble ids (fun f => match Host.document_link db2 f with Includes.Done l => l | _ => [] end) wsf) = wsf) by reflexivity.
-  rewrite AF. apply assemble_wf with (ids := ids) (dl := fun f => match Host.document_link db2 f with Includes.Done l => l | _ => [] end); [| |exact E].
+  exists ids, (fun f => match Host.document_link db2 f with Includes.Done l => l | _ => [] end), wsf.
+  split; [reflexivity|]. split.
   - apply (f_equal (@List.length _)) in AS. rewrite !map_length in AS. symmetry. exact AS.
   - rewrite Forall_forall. intros fp Hfp. assert (I0 : In (Some fp) (map Some wsf)) by (apply in_map; exact Hfp).
     rewrite <- AS in I0. apply in_map_iff in I0. destruct I0 as (f & Hf & _).
@@ -124,4 +138,14 @@ Proof.
     destruct (nth_error parsed (N.to_nat (Includes.c_tag c))) as [p|] eqn:NP; inversion Hf; subst fp; cbn [snd].
     + apply nth_error_In in NP. unfold parsed in NP. apply in_map_iff in NP. destruct NP as (pt & <- & _). apply parse_file_ok.
     + apply parse_file_ok.
+Qed.
+
+(** THE PIPELINE: whatever the files and the root, when the analysis yields a Core workspace, that workspace is well
+    formed with respect to the texts of its files *)
+Theorem analyze_wf : forall pfuel cfuel files root a w,
+  analyze pfuel cfuel files root = Some a -> an_core a = Ok w ->
+  ws_wf (map (fun fp => pf_text (snd fp)) (an_files a)) w.
+Proof.
+  intros pfuel cfuel files root a w A E. destruct (analyze_assemble _ _ _ _ _ A) as (ids & dl & wsf & -> & L & OKs).
+  change (an_files (assemble ids dl wsf)) with wsf. apply assemble_wf with (ids := ids) (dl := dl); assumption.
 Qed.
